@@ -1020,9 +1020,9 @@ theorem jsToExt_length (fl rat : ExtNum) : ∀ xs, (jsToExt fl rat xs).length = 
   | [] => rfl
   | _ :: xs => by simp [jsToExt, jsToExt_length fl rat xs]
 
-/-- flat-array mode with integers as hexadecimal or decimal strings and hexadecimal bytes / addresses -/
+/-- flat-array or object mode with integers as hexadecimal or decimal strings and hexadecimal bytes / addresses -/
 def HexCfg (cfg : SerCfg) : Prop :=
-  cfg.mode = .flatArrays ∧ (cfg.ints = .hex0x ∨ cfg.ints = .base10) ∧ (cfg.bytes = .hex ∨ cfg.bytes = .hex0x) ∧
+  (cfg.mode = .flatArrays ∨ cfg.mode = .objects) ∧ (cfg.ints = .hex0x ∨ cfg.ints = .base10) ∧ (cfg.bytes = .hex ∨ cfg.bytes = .hex0x) ∧
   (cfg.addr = .none ∨ cfg.addr = .hex0x ∨ cfg.addr = .plain)
 
 /-- the table assigns each elementary type its reader -/
@@ -1189,13 +1189,101 @@ theorem leaf_readback (cfg : SerCfg) (hcfg : HexCfg cfg) (info : ElemInfo) (sfx 
     | kids cs => simp [Spec.Abi.WellTyped] at hw
 
 
+/-! ### object mode: members are found again by name -/
+
+/-- the key under which tuple member `i` (0-based) named `n` is written and looked up -/
+def effName (n : String) (i : Nat) : String := if n == "" then toString i else n
+
+def effNames : List String → Nat → List String
+  | [], _ => []
+  | n :: ns, i => effName n i :: effNames ns (i + 1)
+
+theorem effNames_length : ∀ (ns : List String) (i : Nat), (effNames ns i).length = ns.length
+  | [], _ => rfl
+  | _ :: ns, i => by simp [effNames, effNames_length ns (i + 1)]
+
+/-- with pairwise distinct keys, looking a key up returns the value at its position -/
+theorem lookupKey_nodup : ∀ (keys : List String) (vals : List Ext) (j : Nat) (k : String) (v : Ext),
+    keys.Nodup → keys[j]? = some k → vals[j]? = some v → lookupKey keys vals k = some v
+  | [], _, j, k, v, _, hk, _ => by simp at hk
+  | _ :: _, [], j, k, v, _, _, hv => by simp at hv
+  | k0 :: ks, v0 :: vs, j, k, v, hnd, hk, hv => by
+    rw [List.nodup_cons] at hnd
+    unfold lookupKey
+    simp only [List.zip_cons_cons, List.reverse_cons, List.find?_append]
+    cases j with
+    | zero =>
+      simp only [List.getElem?_cons_zero, Option.some.injEq] at hk hv
+      subst hk hv
+      have hnone : List.find? (fun x => x.1 == k0) (ks.zip vs).reverse = none := by
+        rw [List.find?_eq_none]
+        intro x hx
+        rw [List.mem_reverse] at hx
+        have := (List.of_mem_zip hx).1
+        simp only [beq_iff_eq]
+        intro h
+        exact hnd.1 (h ▸ this)
+      rw [hnone]
+      simp
+    | succ j' =>
+      simp only [List.getElem?_cons_succ] at hk hv
+      have := lookupKey_nodup ks vs j' k v hnd.2 hk hv
+      unfold lookupKey at this
+      cases hf : List.find? (fun x => x.1 == k) (ks.zip vs).reverse with
+      | none => rw [hf] at this; simp at this
+      | some pr => rw [hf] at this; simpa using this
+
+
+/-- pointwise: value `x` read back as member type `t` gives `c` -/
+def AllWalk : List Ty → List Ext → List CV → Prop
+  | t :: ts, x :: xs, c :: cs => walkInput t x = .ok c ∧ AllWalk ts xs cs
+  | [], [], [] => True
+  | _, _, _ => False
+
+theorem allWalk_each : ∀ (ts : List Ty) (xs : List Ext) (cs : List CV), AllWalk ts xs cs → walkEach ts xs = .ok cs
+  | [], [], [], _ => by simp [walkEach]
+  | t :: ts, x :: xs, c :: cs, h => by
+    rw [AllWalk] at h
+    rw [walkEach, h.1]
+    simp only []
+    rw [allWalk_each ts xs cs h.2]; rfl
+  | [], _ :: _, _, h => by simp [AllWalk] at h
+  | [], [], _ :: _, h => by simp [AllWalk] at h
+  | _ :: _, [], _, h => by simp [AllWalk] at h
+  | _ :: _, _ :: _, [], h => by simp [AllWalk] at h
+
+/-- the map arm of the tuple walk finds every member again when the keys are the (distinct) effective names -/
+theorem walkNamed_ok (K : List String) (V : List Ext) (hnd : K.Nodup) :
+    ∀ (ns : List String) (ts : List Ty) (xs : List Ext) (cs : List CV) (i : Nat) (Kpre : List String) (Vpre : List Ext),
+      K = Kpre ++ effNames ns i → V = Vpre ++ xs → Kpre.length = i → Vpre.length = i → ns.length = ts.length →
+      AllWalk ts xs cs → walkNamed ns ts i K V = .ok cs
+  | [], [], [], [], _, _, _, _, _, _, _, _, _ => by simp [walkNamed]
+  | n :: ns, t :: ts, x :: xs, c :: cs, i, Kpre, Vpre, hK, hV, hkl, hvl, hl, ha => by
+    rw [AllWalk] at ha
+    have hk : K[i]? = some (effName n i) := by
+      rw [hK, List.getElem?_append_right (by omega), hkl]; simp [effNames]
+    have hv : V[i]? = some x := by
+      rw [hV, List.getElem?_append_right (by omega), hvl]; simp
+    have hlook := lookupKey_nodup K V i (effName n i) x hnd hk hv
+    have hrec := walkNamed_ok K V hnd ns ts xs cs (i + 1) (Kpre ++ [effName n i]) (Vpre ++ [x])
+      (by rw [hK]; simp [effNames]) (by rw [hV]; simp) (by simp [hkl]) (by simp [hvl]) (by simpa using hl) ha.2
+    have hkey : (if n == "" then toString i else n) = effName n i := rfl
+    simp only [walkNamed, hkey, hlook, ha.1, hrec]
+    rfl
+  | [], _ :: _, _, _, _, _, _, _, _, _, _, hl, _ => by simp at hl
+  | _ :: _, [], _, _, _, _, _, _, _, _, _, hl, _ => by simp at hl
+  | [], [], _ :: _, _, _, _, _, _, _, _, _, _, ha => by simp [AllWalk] at ha
+  | [], [], [], _ :: _, _, _, _, _, _, _, _, _, ha => by simp [AllWalk] at ha
+  | _ :: _, _ :: _, [], _, _, _, _, _, _, _, _, _, ha => by simp [AllWalk] at ha
+  | _ :: _, _ :: _, _ :: _, [], _, _, _, _, _, _, _, _, ha => by simp [AllWalk] at ha
+
 mutual
   /-- types whose leaves are table rows with their readers, and whose tuples name every child -/
   def RT : Ty → Prop
     | .elem info sfx m _ => ElemOK info sfx m ∧ ReadOK info
     | .farr t _ => RT t
     | .darr t => RT t
-    | .tuple names ts => names.length = ts.length ∧ RTs ts
+    | .tuple names ts => names.length = ts.length ∧ (effNames names 0).Nodup ∧ RTs ts
   def RTs : List Ty → Prop
     | [] => True
     | t :: ts => RT t ∧ RTs ts
@@ -1227,7 +1315,8 @@ theorem wellTypedEach_length : ∀ (ts : List Ty) (cs : List CV), Spec.Abi.wellT
     simp [wellTypedEach_length ts cs h.2]
 
 mutual
-  /-- **JSON output read back.** In flat-array mode with integers as hexadecimal or decimal strings and hexadecimal bytes and addresses, serializing any
+  /-- **JSON output read back.** In flat-array and in object mode (member names distinct), with integers as hexadecimal or decimal strings and
+      hexadecimal bytes and addresses, serializing any
       well-typed value of any valid type and walking the resulting JSON tree as input returns exactly that value —
       so encoding it again reproduces the original bytes (`encode_eq_spec` is a function of the value). -/
   theorem readback (cfg : SerCfg) (hcfg : HexCfg cfg) (fl rat : ExtNum) : (v : CV) → (t : Ty) → RT t →
@@ -1262,11 +1351,18 @@ mutual
       rw [RT] at hrt
       rw [Spec.Abi.WellTyped] at hw
       rw [StrOK] at hs
-      obtain ⟨kvs, h1, h2, h3⟩ := readback_each cfg hcfg fl rat cs names ts 0 hrt.1 hrt.2 hw hs
-      refine ⟨.arr (kvs.map (·.2.2)), by rw [walkOutput, hcfg.1]; simp only []; rw [h1]; rfl, ?_⟩
-      simp only [jToExt, walkInput, asSlice]
-      rw [if_neg (by rw [jsToExt_length, List.length_map, h2, wellTypedEach_length ts cs hw]; simp), h3]
-      rfl
+      obtain ⟨kvs, h1, h2, h3, h4⟩ := readback_each cfg hcfg fl rat cs names ts 0 hrt.1 hrt.2.2 hw hs
+      rcases hcfg.1 with hm | hm
+      · refine ⟨.arr (kvs.map (·.2.2)), by rw [walkOutput, hm]; simp only []; rw [h1]; rfl, ?_⟩
+        simp only [jToExt, walkInput, asSlice]
+        rw [if_neg (by rw [jsToExt_length, List.length_map, h2, wellTypedEach_length ts cs hw]; simp), allWalk_each _ _ _ h4]
+        rfl
+      · refine ⟨.obj (kvs.map (·.1)) (kvs.map (·.2.2)), by rw [walkOutput, hm]; simp only []; rw [h1]; rfl, ?_⟩
+        simp only [jToExt, walkInput, asSlice]
+        have := walkNamed_ok (kvs.map (·.1)) (jsToExt fl rat (kvs.map (·.2.2))) (by rw [h3]; exact hrt.2.1) names ts
+          (jsToExt fl rat (kvs.map (·.2.2))) cs 0 [] [] (by rw [h3]; rfl) rfl rfl rfl hrt.1 h4
+        rw [this]
+        rfl
     | .int _, .farr _ _, _, hw, _ => by simp [Spec.Abi.WellTyped] at hw
     | .bytes _, .farr _ _, _, hw, _ => by simp [Spec.Abi.WellTyped] at hw
     | .str _, .farr _ _, _, hw, _ => by simp [Spec.Abi.WellTyped] at hw
@@ -1292,9 +1388,12 @@ mutual
       rw [g3]; rfl
   theorem readback_each (cfg : SerCfg) (hcfg : HexCfg cfg) (fl rat : ExtNum) : (cs : List CV) → (names : List String) →
       (ts : List Ty) → (i : Nat) → names.length = ts.length → RTs ts → Spec.Abi.wellTypedEach ts cs = true → StrOKs cs →
-      ∃ kvs, outEach cfg names ts cs i = .ok kvs ∧ kvs.length = cs.length ∧
-        walkEach ts (jsToExt fl rat (kvs.map (·.2.2))) = .ok cs
-    | [], names, [], i, _, _, _, _ => ⟨[], by cases names <;> simp [outEach], rfl, by simp [jsToExt, walkEach]⟩
+      ∃ kvs, outEach cfg names ts cs i = .ok kvs ∧ kvs.length = cs.length ∧ kvs.map (·.1) = effNames names i ∧
+        AllWalk ts (jsToExt fl rat (kvs.map (·.2.2))) cs
+    | [], names, [], i, hl, _, _, _ => by
+      have : names = [] := by cases names with | nil => rfl | cons _ _ => simp at hl
+      subst this
+      exact ⟨[], by simp [outEach], rfl, rfl, by simp [jsToExt, AllWalk]⟩
     | [], _, _ :: _, _, _, _, hw, _ => by simp [Spec.Abi.wellTypedEach] at hw
     | _ :: _, _, [], _, _, _, hw, _ => by simp [Spec.Abi.wellTypedEach] at hw
     | c :: cs, [], t :: ts, i, hl, _, _, _ => by simp at hl
@@ -1304,12 +1403,11 @@ mutual
       rw [StrOKs] at hs
       rw [RTs] at hrt
       obtain ⟨j, h1, h2⟩ := readback cfg hcfg fl rat c t hrt.1 hw.1 hs.1
-      obtain ⟨kvs, g1, g2, g3⟩ := readback_each cfg hcfg fl rat cs names ts (i + 1) (by simpa using hl) hrt.2 hw.2 hs.2
-      refine ⟨((if nm == "" then toString i else nm), render t, j) :: kvs, by rw [outEach, h1]; simp only []; rw [g1]; rfl, by simp [g2], ?_⟩
-      simp only [List.map_cons]
-      rw [jsToExt, walkEach, h2]
-      simp only []
-      rw [g3]; rfl
+      obtain ⟨kvs, g1, g2, g3, g4⟩ := readback_each cfg hcfg fl rat cs names ts (i + 1) (by simpa using hl) hrt.2 hw.2 hs.2
+      refine ⟨((if nm == "" then toString i else nm), render t, j) :: kvs, by rw [outEach, h1]; simp only []; rw [g1]; rfl, by simp [g2],
+        by simp only [List.map_cons, effNames, g3]; rfl, ?_⟩
+      simp only [List.map_cons, jsToExt, AllWalk]
+      exact ⟨h2, g4⟩
 end
 
 
@@ -1353,9 +1451,9 @@ example : ∀ u ∈ Gen.AbiTypeTable.table, u.name = "uint" → ∀ s ∈ Gen.Ab
     StrOK (.kids [.int 5, .kids [.str [0x61, 0x62], .str []]]) ∧
     HexCfg { mode := .flatArrays, ints := .base10, bytes := .hex0x, addr := .hex0x } := by
   intro u hu hun s hs hsn
-  refine ⟨?_, ?_, ⟨rfl, Or.inr rfl, Or.inr rfl, Or.inr (Or.inl rfl)⟩⟩
+  refine ⟨?_, ?_, ⟨Or.inl rfl, Or.inr rfl, Or.inr rfl, Or.inr (Or.inl rfl)⟩⟩
   · simp only [RT, RTs, and_true, List.length_cons, List.length_nil, true_and]
-    exact ⟨⟨uint256_ok u hu hun, table_readers u hu⟩, string_ok s hs hsn, table_readers s hs⟩
+    exact ⟨by decide, ⟨uint256_ok u hu hun, table_readers u hu⟩, string_ok s hs hsn, table_readers s hs⟩
   · simp only [StrOK, StrOKs, StrLeafOK, and_true, true_and]
     constructor <;> decide +kernel
 
